@@ -436,6 +436,7 @@ func (w *World) verifyFunc(u *Unit, name string) (ex *Exec, err error) {
 	if fs != nil {
 		for _, h := range fs.Holds {
 			st.held[h] = &lockHeld{snap: st.clone()}
+			w.Trusted["`holds`: "+ex.FName+" is taken to run with "+h+" held (checked at its call sites inside the program; for a lock of another library - a callback that library invokes under its own lock - it is a statement about that library, read off its source)"] = true
 		}
 	}
 	st.old = st.clone()
